@@ -396,4 +396,7 @@ def typed_contexts(T, S):
         # a construct with ANOTHER non-empty result type has just been closed inside the T-typed block: the outer label must still carry T
         ('after-nested-i32-block', [blkT, by['block(i32)'], ci(), end, drop], [end]),
         ('inside-i32-block-in-T-block', [blkT, cT(), by['block(i32)']], [end, drop, end]),
+        # two T operands stay below a block whose body is dead code (where drops and branches are valid on an empty stack); afterwards they are
+        # consumed by an instruction that names its operands by their types
+        ('T-operands-below-dead-code-then-select', [cT(), cT(), blk, br0], [end, ci(), by['select']]),
     ]
